@@ -48,6 +48,7 @@ type c02cfg struct {
 	pauses   [][]time.Duration
 	// "wrap" family: the wire-ID allocator is rewound onto IDs still outstanding
 	wrap     bool
+	idle     time.Duration // idle timeout of the transport's connections (0 = default)
 }
 
 // directConn drives one bare pipelined connection (no transport-level retry on
@@ -139,6 +140,18 @@ func c02Setup(rc *RunCtx) simrt.Config {
 			c.pZero = 30
 		}
 	}
+	if c.tieD == 0 && !c.hist && !c.wrap && (c.kind == TkTCP || c.kind == TkReuse) && r.Choose(2) == 0 {
+		// Non-pipelined connections (one query at a time, which arms its own 6 s
+		// deadline) with idle timeouts shorter than the reply latencies: the idle
+		// deadline must not apply while the query is in flight. (On a pipelined
+		// connection the idle timeout by design also bounds the gap between two
+		// replies, so an idle timeout below the server's latency is a
+		// misconfiguration there, not a healthy connection.) The half millisecond keeps
+		// an idle expiry from ever coinciding with the start of a call (every other
+		// duration in this scenario is a whole number of milliseconds).
+		c.idle = []time.Duration{200500 * time.Microsecond, 750500 * time.Microsecond}[r.Choose(2)]
+	}
+	rc.Cfg["idle_us"] = int(c.idle / time.Microsecond)
 	rc.Cfg["history"] = c.hist
 	rc.Cfg["wrap"] = c.wrap
 	rc.Cfg["tie_ms"] = int(c.tieD / time.Millisecond)
@@ -256,7 +269,7 @@ func c02Main(rc *RunCtx) {
 			}
 		}).Daemon = true
 	default:
-		u = w.NewTransport(c.kind, TransportOpts{MaxCQ: 0})
+		u = w.NewTransport(c.kind, TransportOpts{MaxCQ: 0, IdleTimeout: c.idle})
 	}
 	c.u = u
 	done := make(chan struct{}, c.callers)
@@ -300,6 +313,28 @@ func c02Main(rc *RunCtx) {
 }
 
 func c02OnEvent(rc *RunCtx, w *W1, e simnet.Event) {
+	if e.Kind == "close" && e.Side == "c" && !w.Closed {
+		// The client closes a connection. If the server has neither closed nor
+		// reset it, every query in flight on it whose caller is still waiting
+		// with a live context loses a reply that was going to arrive in time (the
+		// server of this scenario answers everything within 2.5 s): liveness
+		// detection has killed a healthy connection.
+		cc := rc.Net.Conns()[e.Conn]
+		if !cc.Peer().IsClosed() {
+			for _, x := range w.Calls {
+				if !x.Started || x.Done || len(x.Txs) == 0 || len(x.Timely) > 0 {
+					continue
+				}
+				if x.Deadline > 0 && e.At >= x.Deadline {
+					continue
+				}
+				if last := x.Txs[len(x.Txs)-1]; last.Conn == e.Conn && x.KilledAt == 0 {
+					x.KilledAt, x.KilledConn = e.At+1, e.Conn
+				}
+			}
+		}
+		return
+	}
 	if e.Kind == "write" && e.Side == "s" {
 		// a reply reaches the client's receive buffer
 		if info, ok := e.Tag.(ReplyInfo); ok && info.Call >= 0 {
@@ -346,6 +381,11 @@ func c02OnEvent(rc *RunCtx, w *W1, e simnet.Event) {
 }
 
 func c02CheckCall(rc *RunCtx, x *Call, final bool) {
+	if x.KilledAt > 0 && x.Done && (x.Deadline == 0 || x.KilledAt-1 < x.Deadline) {
+		rc.Fail("healthy_connection_closed_with_query_in_flight", "call %d (%s): transmitted on connection %d, which the client closed at t=%v although the server had not closed it and the call's context was live; its reply was due within 2.5s of the send (call ended at t=%v, err=%v)",
+			x.Idx, x.QName, x.KilledConn, x.KilledAt-1, x.EndAt, x.Err)
+		return
+	}
 	if len(x.Timely) == 0 {
 		// Never consumed. If a reply sat in the connection's receive buffer at an
 		// earlier virtual instant than the one at which the call gave up (so the
